@@ -140,7 +140,7 @@ fn gen_udb(g: &mut Gen, well_formed: bool) -> TableDb {
 }
 
 /// replace random type subterms by variables: the result has `s` as an instance
-fn generalize(g: &mut Gen, s: &Sexp, use_bound: bool) -> Sexp {
+pub fn generalize(g: &mut Gen, s: &Sexp, use_bound: bool) -> Sexp {
     let mut f = |t: &Sexp| -> Option<Sexp> {
         if g.rng.chance(1, 5) {
             Some(if use_bound && g.rng.chance(1, 2) {
@@ -157,10 +157,10 @@ fn generalize(g: &mut Gen, s: &Sexp, use_bound: bool) -> Sexp {
 }
 
 /// small edit that usually destroys unifiability
-fn edit(g: &mut Gen, s: &Sexp) -> Sexp {
+pub fn edit(rng: &mut crate::rng::Rng, s: &Sexp) -> Sexp {
     let mut done = false;
     let mut f = |t: &Sexp| -> Option<Sexp> {
-        if done || !g.rng.chance(1, 4) {
+        if done || !rng.chance(1, 4) {
             return None;
         }
         if let Sexp::List(xs) = t {
@@ -245,7 +245,7 @@ pub fn run(ctx: &Ctx, out: &mut Out) {
         let a = generalize(&mut g, &anc, true);
         let mut b = generalize(&mut g, &anc, false);
         if mode == 1 {
-            b = edit(&mut g, &b);
+            b = edit(g.rng, &b);
         } else if mode == 2 {
             b = match kind {
                 0 => g.ty(depth, 0),
